@@ -55,6 +55,37 @@ Definition rck_step (st : store * list (option rcuckoo)) (op : tok) : (store * l
       | None => (st, T_INVALID)
       end
   | [TN 6; TB x] => (st, TN (murmur64 x))
+  | [TN 23; TN i; TN j] =>
+      match get_inst hs i, get_inst hs j with
+      | Some a, Some b => (st, gerr tbool (Ok (rck_equals s a b)))
+      | _, _ => (st, T_INVALID)
+      end
+  | [TN 24; TN i] =>
+      match get_inst hs i with
+      | Some h =>
+          (st, gerr (fun d => d)
+                 (Ok (TL [TN (rq_size h); TN (rq_bsize h); TN (rq_fpl h); TN (rck_length s h); TN (rq_retries h);
+                          TL (map (fun b => let '(bs, l, e, k) := b in TL [TN bs; TN l; tlistB e; TB k])
+                                  (rck_export_buckets s h));
+                          TB (rq_key h); TB (rq_meta h)])))
+      | None => (st, T_INVALID)
+      end
+  | [TN 25; TN i; TL [TN size; TN bsize; TN fpl; TN len; TN retries; TL bks; TB dkey; TB dmeta];
+     TN withnew; TB key; TB meta] =>
+      match get_inst hs i with
+      | Some _ =>
+          if N.of_nat (length bks) =? size then
+            let elems := map (fun b => match b with
+                                       | TL [_; _; TL e; _] => map tok_B e
+                                       | _ => []
+                                       end) bks in
+            let '(h, s') := rck_import s size bsize fpl retries len elems
+                                       (if withnew =? 0 then dkey else key)
+                                       (if withnew =? 0 then dmeta else meta) in
+            ((s', set_inst hs (N.to_nat i) h), gerr (fun _ : unit => tunit) (Ok tt))
+          else (st, (TL [TN 77]))
+      | None => (st, T_INVALID)
+      end
   | [TN 8; TN i; TB meta] =>
       let '(h, s') := rck_attach s meta in ((s', set_inst hs (N.to_nat i) h), tu (Ok tt))
   | _ => (st, T_INVALID)
